@@ -20,6 +20,7 @@ pub const OFFS: [i32; 17] = [0, 1, -1, 59, -59, 60, -60, 3599, 3600, -3600, 19_8
 pub fn instants(rng: &mut Rng, extra: usize) -> Vec<NaiveDateTime> {
     let mut v = Vec::new();
     for (n, s) in [(MIN_DAY, 0u32), (MIN_DAY, 1), (MIN_DAY, 86_399), (MIN_DAY + 1, 0), (MIN_DAY + 1, 43_200), (MAX_DAY, 86_399), (MAX_DAY, 86_398), (MAX_DAY, 0), (MAX_DAY - 1, 86_399), (MAX_DAY - 1, 3),
+                   (738_885, 84_600), (738_886, 1_800), (739_251, 84_600), (739_252, 1_800), (738_945, 84_600), (738_946, 1_800), (738_579, 84_600), (738_580, 1_800),   // 2023/24/25 year ends, Feb 29 / Mar 1 2024, Feb 28 / Mar 1 2023
                    (719_163, 0), (730_179, 86_399), (730_120 + 59, 0), (738_000, 43_200), (0, 0), (1, 0)] {
         // a leap second on the very last representable second lies beyond MAX_UTC: not a value of the property's domain
         for f in [0u32, 999_999_999, 1_500_000_000] { if !(n == MAX_DAY && s == 86_399 && f >= 1_000_000_000) { v.push(mk_ndt(n, s, f)); } }
